@@ -159,7 +159,7 @@ func zzNConn(isClient bool, nw *zzNNet, cfg *dtlsconfig.HandshakeConfig) *Conn {
 }
 
 // fatal_drops_session: Conn.notify (the only place an endpoint emits an alert) for an ARBITRARY alert level
-// and description byte, on a client or a server, DTLS 1.2 or DTLS 1.3 state, with or without a session store
+// and description byte, during the handshake or after it completed, on a client or a server, DTLS 1.2 or DTLS 1.3 state, with or without a session store
 // (wired through the real newHandshakeConfig), with a connection session id of 0..NKEY-1 arbitrary bytes, and
 // a store that holds the connection's session (under the connection's session key) or a session under
 // another arbitrary key. Proved: if the level is fatal, the connection has a session id, a store is
@@ -171,7 +171,7 @@ func zzNConn(isClient bool, nw *zzNNet, cfg *dtlsconfig.HandshakeConfig) *Conn {
 // store is not touched at all and exactly one alert record is written. The session key used by notify is
 // the one the flight handlers use for Get/Set (handshakeConn.SessionKey).
 //
-//symgo:entry covers=client_dropped,server_dropped,warning_keeps,no_id_keeps,no_store,dtls13_keeps,other_key_untouched,del_fails
+//symgo:entry covers=alert_after_establishment,alert_during_handshake,client_dropped,server_dropped,warning_keeps,no_id_keeps,no_store,dtls13_keeps,other_key_untouched,del_fails
 func zzFatalDropsSession() {
 	ev := &zzNEvents{}
 	nw := &zzNNet{ev: ev}
@@ -213,6 +213,15 @@ func zzFatalDropsSession() {
 	store.id, store.sec = []byte{7}, []byte{8}
 	other := store.key
 	store.failDel = hasStore && zzsymChoice("del_fails", 2) == 1
+
+	// the alert may be raised during the handshake or on the established connection (a record-level error, the
+	// application closing with an error alert): the session goes in both cases
+	if !v13 && zzsymChoice("established", 2) == 1 { // (a DTLS 1.3 alert after establishment needs write keys: not the subject, sessions are DTLS 1.2 only)
+		dtlshandshake.ZZMarkEstablished(c.handshakeEstablished)
+		zzsymCover("alert_after_establishment")
+	} else {
+		zzsymCover("alert_during_handshake")
+	}
 
 	level := alert.Level(zzsymU8("level"))
 	desc := alert.Description(zzsymU8("description"))
